@@ -95,6 +95,19 @@ pub fn run(args: &Args) -> Report {
         }
     }
     let mut cases = Vec::new();
+    // frames larger than the reads that take them: a frame consumed in pieces is acknowledged once
+    for &(a, b) in cfgs.iter().filter(|(a, b)| thorough || a.0 + b.0 <= 4) {
+        let n = 2 * a.0.max(b.0) as usize + 2;
+        let streams = vec![StreamSpec {
+            tag: 1,
+            opener: 0,
+            opener_plan: EndPlan::Split(vec![Op::Burst(n, 3), Op::Shutdown], vec![Op::ReadToEof(1)]),
+            acceptor_plan: EndPlan::Split(vec![Op::Burst(n, 2), Op::Shutdown], vec![Op::ReadToEof(2)]),
+        }];
+        let cfg = XferCfg { a, b, cap: 0, streams, stream_buffer: 4, one_byte_frames: false, dgram_pingpong: 0, dgram_buffer: 4, drop_mux_when_writers_done: None, horizon: 8000 };
+        let label = format!("multi-byte frames read in pieces | {}", cfg.describe());
+        cases.push(Case { try_unbounded: false, max_k: u32::MAX, label, exec: Box::new(move |r| xfer::exec(&cfg, &or, r)) });
+    }
     for (a, b) in cfgs {
         let n = 2 * a.0.max(b.0) as usize + 2;
         for cap in if thorough { vec![0usize, 1] } else { vec![0usize] } {
